@@ -39,6 +39,19 @@ def gen(rng, tier, n):
             insts = [rng.choice(gs.STRS) for _ in range(4)] + [Num(rng.choice(pool)) for _ in range(5)]
             ops.append({"op": "validate", "args": {"schema": doc, "insts": insts}, "meta": {"kw": gs.count_keywords(doc) + 1}})
             continue
+        if r < 0.37:
+            # equality-deciding keywords on values that are equal but spelled differently (0 / -0.0, 1 / 1.0 / 1e0, 100 / 1e2), at the
+            # top and nested in otherwise equal containers
+            a, b = rng.choice([("0", "-0.0"), ("0", "-0"), ("1", "1.0"), ("100", "1e2"), ("0.5", "5e-1"), ("-0.0", "0.0"),
+                               ("9223372036854775808", "9.223372036854775808e18"), ("2", "3")])
+            wrap = rng.choice([lambda x: x, lambda x: [x], lambda x: Obj([("a", x)]), lambda x: [[x], "s"]])
+            x, y = wrap(Num(a)), wrap(Num(b))
+            doc = rng.choice([Obj([("uniqueItems", True)]), Obj([("not", Obj([("uniqueItems", True)]))]),
+                              Obj([("items", Obj([("const", x)]))]), Obj([("contains", Obj([("enum", [x, "zz"])])), ("minContains", Num("2"))]),
+                              Obj([("uniqueItems", True), ("unevaluatedItems", False), ("prefixItems", [True, True, True])])])
+            insts = [[x, y], [y, x], [x, "s", y], [x, x], [y], [x, Num("7"), y, None]]
+            ops.append({"op": "validate", "args": {"schema": doc, "insts": insts}, "meta": {"kw": 2}})
+            continue
         c = gs.Ctx(rng, "2020", depth=rng.choice([1, 2, depth]))
         doc = gs.gen_document(c, gs.D2020_URI if rng.random() < 0.3 else None)
         huge = not gs.has_key(doc, {"multipleOf"})
